@@ -27,7 +27,6 @@ from collections import Counter
 VERIF = os.path.dirname(os.path.dirname(os.path.abspath(__file__)))
 LEAN_DIR = os.path.join(VERIF, "lean")
 REPO = os.environ.get("YASTN_REPO", "/repo")
-DRIVER_BIN = os.path.join(LEAN_DIR, ".lake", "build", "bin", "ydriver")
 ALLOWED_AXIOMS = {"propext", "Classical.choice", "Quot.sound"}
 FORBIDDEN = re.compile(r"\bsorry\b|\badmit\b|^\s*axiom\s|native_decide|bv_decide|implemented_by|\bunsafe\s|maxHeartbeats\s+0\b")
 
@@ -63,13 +62,13 @@ class _Lock:
         self.f.close()
 
 
-def run_translators():
+def run_translators(names=("gen_sym", "gen_consts", "gen_optables")):
     """Regenerate generated Lean files from /repo's current working tree."""
     sys.path.insert(0, os.path.join(VERIF, "gen"))
     out = {}
     with _Lock("gen"):
         import importlib
-        for name in ("gen_sym", "gen_consts", "gen_optables"):
+        for name in names:
             try:
                 mod = importlib.import_module(name)
             except ModuleNotFoundError:
@@ -168,10 +167,11 @@ def leanchecker(modules, timeout=3000):
 class LeanDriver:
     """Line-protocol client of the compiled Lean model driver."""
 
-    def __init__(self):
-        if not os.path.exists(DRIVER_BIN):
-            raise InfraError("model driver not built")
-        self.p = subprocess.Popen([DRIVER_BIN], stdin=subprocess.PIPE, stdout=subprocess.PIPE, text=True, bufsize=1 << 20)
+    def __init__(self, exe):
+        path = os.path.join(LEAN_DIR, ".lake", "build", "bin", exe)
+        if not os.path.exists(path):
+            raise InfraError(f"model driver {exe} not built")
+        self.p = subprocess.Popen([path], stdin=subprocess.PIPE, stdout=subprocess.PIPE, text=True, bufsize=1 << 20)
         self.calls = 0
 
     def call(self, req):
@@ -383,7 +383,7 @@ def run_check(pid, tier, seed, prop, replay=None):
     obligations = discharged = 0
 
     # 1. translators -----------------------------------------------------------------------
-    gen = run_translators()
+    gen = run_translators(tuple(getattr(prop, "TRANSLATORS", ())))
     for name, res in gen.items():
         if isinstance(res, dict) and res.get("error"):
             ctx.fail("translator", f"translator:{name}", f"translator {name} failed on the current source: {res['error']}")
@@ -393,10 +393,11 @@ def run_check(pid, tier, seed, prop, replay=None):
     ctx.extra["translators"] = {k: (v if isinstance(v, dict) else str(v)) for k, v in gen.items()}
 
     # 2. build -------------------------------------------------------------------------------
-    ok_drv, log_drv, _ = lake_build(["ydriver"])
-    if not ok_drv:
+    drv_exe = getattr(prop, "DRIVER", f"drv_{pid.lower()}")
+    ok_drv, log_drv, _ = lake_build([drv_exe]) if drv_exe else (False, "", 0)
+    if drv_exe and not ok_drv:
         # the model (incl. generated files) does not compile: treat as broken tie, continue to search
-        ctx.fail("proof", "build:ydriver", "model driver does not build against the regenerated model files:\n" + log_drv[-1500:])
+        ctx.fail("proof", f"build:{drv_exe}", "model driver does not build against the regenerated model files:\n" + log_drv[-1500:])
     broken_targets = []
     for t in targets:
         ok, log, dt = lake_build([t])
@@ -439,7 +440,7 @@ def run_check(pid, tier, seed, prop, replay=None):
 
     # 4. correspondence + contracts + oracles on the real code -------------------------------------
     if ok_drv:
-        ctx.drv = LeanDriver()
+        ctx.drv = LeanDriver(drv_exe)
     try:
         if replay is not None:
             prop.replay(ctx, replay)
